@@ -440,6 +440,31 @@ class Grammar:
                     raise Unsupported("locate: steps into %s" % node.kind)
                 return node
 
+    def from_fields(self, ty):
+        """field names of `ty` in the order of the tuple its From impl takes, or None"""
+        for (f, self_ty, name), fns in self.dump.methods.items():
+            if name != "from" or not self_ty.startswith(ty):
+                continue
+            for fn in fns:
+                stmts = fn["body"]["stmts"]
+                arg = pname(fn["params"][0])
+                names, lit = None, None
+                for st in stmts:
+                    if st["k"] == "let" and st["pat"]["k"] == "tuple" and st["init"] and st["init"].get("segs") == [arg]:
+                        names = [el.get("name") for el in st["pat"]["elems"]]
+                    elif st["k"] == "expr" and st["e"]["k"] == "struct":
+                        lit = st["e"]
+                if names and lit:
+                    by = {}
+                    for fl in lit["fields"]:
+                        e = fl["e"]
+                        if e["k"] == "path" and len(e["segs"]) == 1 and e["segs"][0] in names:
+                            by[e["segs"][0]] = fl["member"]
+                    if len(by) == len(names):
+                        self.used_fns[(f, "%s::from" % ty)] = self.dump.fn_hash(fn)
+                        return [by[nm] for nm in names]
+        return None
+
     def is_text_output(self, node):
         """the parser's output is exactly the text it consumed"""
         while node.kind == "map" and node.arg is None:
@@ -1126,6 +1151,11 @@ class Run:
             seq = seq.kids[0]
         binds = {}
         if pat["k"] == "ident":
+            body0 = clo["body"]
+            while body0["k"] == "block" and len(body0["stmts"]) == 1 and body0["stmts"][0]["k"] == "expr":
+                body0 = body0["stmts"][0]["e"]
+            if body0["k"] == "call" and body0["func"]["k"] == "path" and len(body0["args"]) == 1 and body0["args"][0].get("segs") == [pat["name"]]:
+                return self._verify_by_kernel(n, i, kid, body0["func"]["segs"], file)
             # verify(P, |v| !v.is_empty()): P must consume at least one character
             body = clo["body"]
             while body["k"] == "block" and len(body["stmts"]) == 1 and body["stmts"][0]["k"] == "expr":
@@ -1203,6 +1233,122 @@ class Run:
                     eq = Or(eq, same)
             out.add(e, And(c, eq if body["op"] == "==" else Not(eq)))
         return out
+
+    # verify(many0(P), |v| pred_fn(v)): the predicate is a repo function over the list of outputs. The iterations of
+    # the many0 are enumerated with their concrete spans, each output is built as a value of the S-kernel (a struct whose
+    # text-like fields hold the consumed characters) and the real function body is executed symbolically on that list.
+
+    def _verify_by_kernel(self, n, i, kid, fn_segs, file):
+        from . import kernel
+        many = kid
+        while many.kind in ("map", "recognize"):
+            many = many.kids[0]
+        if many.kind not in ("many0", "many1"):
+            raise Unsupported("verify by function: the checked parser is not a repetition")
+        r = self.g.dump.resolve(fn_segs, file)
+        if r is None:
+            raise Unsupported("verify by function: unknown function %s" % fn_segs)
+        pfile, pfn = r
+        self.g.used_fns[(pfile, pfn["name"])] = self.g.dump.fn_hash(pfn)
+        elem = many.kids[0]
+        out = Ends()
+        # iteration sequences: (list of element values, position, condition)
+        seqs = [([], i, True)]
+        finished = []
+        guard = 0
+        while seqs:
+            guard += 1
+            if guard > 4000:
+                raise Unsupported("verify by function: too many iteration sequences")
+            vals, j, c = seqs.pop()
+            r_el = self.ends(elem, j)
+            stop = And(c, Not(Or(*[ce for e, ce in r_el.items() if e > j])))
+            if many.kind == "many1" and not vals:
+                stop = False
+            if stop is not False:
+                finished.append((vals, j, stop))
+            for v, e, ce in self._out_paths(elem, j):
+                if e > j:
+                    cc = And(c, ce)
+                    if cc is not False:
+                        seqs.append((vals + [v], e, cc))
+        for vals, j, c in finished:
+            if len(vals) <= 1 and False:
+                out.add(j, c)
+                continue
+            I = kernel.Interp(self.g.dump, profile="release")
+            lst = kernel.SVec(vals)
+
+            def thunk(I, lst=lst):
+                return I.call_fn(pfile, pfn, [kernel.SVec(lst)])
+            try:
+                paths = I.explore(thunk)
+            except kernel.Unsupported as e:
+                raise Unsupported("verify by function: %s" % e)
+            good = False
+            for p in paths:
+                if p["kind"] != "ret":
+                    raise Unsupported("verify by function: the predicate can panic")
+                rv = p["value"]
+                if rv is True or (not isinstance(rv, bool) and rv is not False):
+                    pc = And(*p["pc"]) if p["pc"] else True
+                    good = Or(good, pc if rv is True else And(pc, rv))
+            out.add(j, And(c, good))
+        return out
+
+    def _out_paths(self, node, i):
+        """[(value, end, cond)]: the output of applying `node` at i, as an S-kernel value, per concrete span structure"""
+        from . import kernel
+        k = node.kind
+        if k == "ref":
+            return self._out_paths(self.g.body_of(node), i)
+        if k == "map":
+            f = node.arg
+            if isinstance(f, dict) and f.get("k") == "path" and f["segs"][-1] == "from" and len(f["segs"]) >= 2:
+                ty = f["segs"][-2]
+                fields = self.g.from_fields(ty)
+                inner = node.kids[0]
+                while inner.kind in ("map", "recognize") and inner.kind != "seq":
+                    if inner.kind == "map" and inner.arg is not None:
+                        break
+                    inner = inner.kids[0]
+                if fields and inner.kind == "seq" and len(inner.roles) == len(fields):
+                    res = []
+                    for vals, e, c in self._seq_out_paths(inner, i):
+                        o = kernel.Obj(ty, dict(zip(fields, vals)))
+                        res.append((o, e, c))
+                    return res
+            # any other mapped value: the text it consumed identifies it (outputs are injective functions of the text)
+            return [(self._text(i, e), e, c) for e, c in self.ends(node, i).items()]
+        if k == "seq":
+            res = []
+            for vals, e, c in self._seq_out_paths(node, i):
+                res.append((vals[0] if len(vals) == 1 else tuple(vals), e, c))
+            return res
+        return [(self._text(i, e), e, c) for e, c in self.ends(node, i).items()]
+
+    def _seq_out_paths(self, seq, i):
+        """outputs of the role members of a sequence: [(list of values, end, cond)]"""
+        paths = [([], i, True)]
+        for idx, member in enumerate(seq.kids):
+            nxt = []
+            for vals, j, c in paths:
+                if idx in seq.roles:
+                    for v, e, ce in self._out_paths(member, j):
+                        cc = And(c, ce)
+                        if cc is not False:
+                            nxt.append((vals + [v], e, cc))
+                else:
+                    for e, ce in self.ends(member, j).items():
+                        cc = And(c, ce)
+                        if cc is not False:
+                            nxt.append((vals, e, cc))
+            paths = nxt
+        return paths
+
+    def _text(self, i, e):
+        from . import kernel
+        return kernel.SStr(kernel.Ch(self.inp[p]) for p in range(i, e))
 
     def _spans(self, member, start, target):
         from . import active
